@@ -428,6 +428,8 @@ class Gen:
         # an enum with an explicit repr never mixes field-less and data-carrying variants in the random stream:
         # that class is known finding K13 (witness FixEMixed8 in the fixed corpus)
         allunit = repr_ is not None and rng.random() < 0.4
+        if allunit:
+            reprc = False        # rustc rejects #[repr(uN, C)] on a field-less enum (conflicting representation hints)
         for i in range(nv):
             if repr_ is not None:
                 nf = 0 if allunit else rng.choice([1, 1, 2])
@@ -435,7 +437,9 @@ class Gen:
                 nf = rng.choice([0, 0, 1, 2, 3]) if not packed_bias else rng.choice([0, 1, 1, 2])
             fields = []
             for j in range(nf):
-                ft = self.gen_ty(depth, packed_bias)
+                # no Cell in variant fields: the derive's Introspect for a variant with a #[savefile_introspect_ignore]d
+                # field does not compile (pattern arity), and Cell has no Introspect impl
+                ft = self.gen_ty(depth, packed_bias, allow_cell=False)
                 fields.append({"name": "x%d" % j, "ty": ft, "from": 0, "to": None, "kind": "normal",
                                "default": default_val(ft) if defaultable(ft) else None})
             variants.append({"name": "V%d" % i, "from": 0, "to": None, "fields": fields, "named": rng.random() < 0.4 and nf > 0, "discr": None})
@@ -452,6 +456,10 @@ def attrs_for_field(f):
     frm, to = f.get("from", 0), f.get("to")
     if f["kind"] == "ignored":
         a.append("#[savefile_ignore]")
+    found = []
+    walk_types(f["ty"], lambda x: found.append(1) if x["k"] == "cell" else None)
+    if found:
+        a.append("#[savefile_introspect_ignore]")     # Cell<T> has no Introspect impl
     if frm != 0 or to is not None:
         a.append('#[savefile_versions="%s..%s"]' % (frm if frm else "0", "" if to is None else to))
     mode = f.get("default_mode")
